@@ -166,6 +166,19 @@ func genMultiTree(r *h.Rand) h.Case {
 	paths := []string{"/a.jet", "/b.jet", "/d/c.jet"}
 	c := sx.L(sx.A("multi-tree"), sx.I(int64(nl)), sx.I(int64(nm)))
 	leaf := func() *sx.Sexp { return sx.L(sx.A("leaf"), sx.I(int64(r.Intn(nl)))) }
+	if r.Chance(40) {
+		// two of the stacks are built from ONE list of loaders (NewLoader(base...) twice): they share nothing but
+		// their first members; clearing and refilling one must not change what the other answers
+		i := r.Intn(nm)
+		j := (i + 1 + r.Intn(nm-1)) % nm
+		c.Add(sx.L(sx.A("init"), sx.I(int64(i)), sx.I(int64(j)), sx.I(int64(r.Intn(nl))), sx.I(int64(r.Intn(nl)))))
+		c.Add(sx.L(sx.A("set"), sx.I(int64(r.Intn(nl))), sx.S("/a.jet"), sx.S("i0")))
+		c.Add(sx.L(sx.A("set"), sx.I(int64(r.Intn(nl))), sx.S("/b.jet"), sx.S("i1")))
+		c.Add(sx.L(sx.A("clear"), sx.I(int64(i))))
+		c.Add(sx.L(sx.A("add"), sx.I(int64(i)), leaf()))
+		c.Add(sx.L(sx.A("open"), sx.I(int64(j)), sx.S("/a.jet")))
+		c.Add(sx.L(sx.A("open"), sx.I(int64(j)), sx.S("/b.jet")))
+	}
 	// an initial shape: multi 0 holds a leaf and multi 1
 	c.Add(sx.L(sx.A("add"), sx.I(0), leaf()))
 	c.Add(sx.L(sx.A("add"), sx.I(0), sx.L(sx.A("multi"), sx.I(1))))
@@ -384,6 +397,14 @@ func init() {
 					ms[i].AddLoaders(ims[j])
 					stacks[i] = append(stacks[i], child{false, j})
 				}
+				out.Add(sx.A("ok"))
+			case "init":
+				i, j, a, b := atoi(op.Xs[1].A), atoi(op.Xs[2].A), atoi(op.Xs[3].A), atoi(op.Xs[4].A)
+				base := []jet.Loader{ims[a], ims[b]}
+				ms[i] = multi.NewLoader(base...)
+				ms[j] = multi.NewLoader(base...)
+				stacks[i] = []child{{false, a}, {false, b}}
+				stacks[j] = []child{{false, a}, {false, b}}
 				out.Add(sx.A("ok"))
 			case "clear":
 				i := atoi(op.Xs[1].A)
